@@ -249,7 +249,29 @@ func c04EnforcePlant(p *synth.Project, r interface{ Intn(int) int }) string {
 		}
 		c.Security = nil
 	}
-	strip := func(s site) { p.Controllers[s.ci].Methods[s.mi].Security = nil }
+	strip := func(s site) {
+		p.Controllers[s.ci].Methods[s.mi].Security = nil
+		if r.Intn(2) == 0 {
+			// an unrelated warning on the same controller: a secured twin whose route overlaps the stripped one
+			// (same verb, same shape, other parameter names) - the conflict warning must not displace the error
+			src := p.Controllers[s.ci].Methods[s.mi]
+			twin := src
+			twin.Name = src.Name + "Twin"
+			twin.Hidden, twin.HiddenArg = false, ""
+			twin.Security = []synth.Security{{Scheme: p.Config.Schemes[0].Name, Scopes: []string{"read"}}}
+			twin.Params = append([]synth.Param{}, src.Params...)
+			for i := range twin.Params {
+				if twin.Params[i].In == "path" && twin.Params[i].GoName != "tenant" {
+					old := twin.Params[i].WireName()
+					twin.Params[i].GoName += "Tw"
+					twin.Params[i].Wire = ""
+					twin.Route = strings.Replace(twin.Route, "{"+old+"}", "{"+twin.Params[i].GoName+"}", 1)
+				}
+			}
+			p.Controllers[s.ci].Methods = append(p.Controllers[s.ci].Methods, twin)
+			p.SetFeature("route-conflict-next-to-unsecured-route")
+		}
+	}
 	switch k := r.Intn(5); {
 	case k < 2 && len(hidden) > 0:
 		strip(hidden[r.Intn(len(hidden))])
